@@ -170,15 +170,21 @@ Section Rules.
       exists s1, s2. split; [assumption|]. split; [eapply ext_trans; eassumption|]. auto.
   Qed.
 
-  Lemma rej_blob_field pre lit post self sp ta f ctx s :
-    wf s -> blob_sig v k b s -> lit_type lit = Some ta -> rigid ta = true -> base_head b <> ta ->
+  (* the initialiser of field k is any expression whose value is known to have the leaf type ta (a literal; a call of a
+     function with a monomorphic signature: TwoDecls.v) *)
+  Lemma rej_blob_field_y pre lit post self sp ta f ctx s :
+    wf s -> blob_sig v k b s ->
+    (forall f' s1 x s2, wf s1 -> ext s s1 -> r_expr (afix f') lit ctx s1 = Ok (x, s2) -> head s2 (snd x) = Some ta) ->
+    rigid ta = true -> base_head b <> ta ->
     notok (r_expr (afix f) (EBlob v (pre ++ (k, lit) :: post) self sp) ctx s).
   Proof.
-    intros W (name & bsp & fs & bargs & spk & c & Hh & Hk & Hc) Ll Rl Ne [r s'] H.
+    intros W (name & bsp & fs & bargs & spk & c & Hh & Hk & Hc) Hy Rl Ne [r s'] H.
+    assert (Pcp : pres (copy G V)) by (pose proof PG; prs).
     destruct f as [|f]; [discriminate|]. cbn [Tc.afix astep r_expr] in H. unfold expr_body in H.
     apply bind_inv in H as ([er ex] & s1 & H1 & _). cbv beta iota in H1.
     apply bind_inv in H1 as (bt & s2 & Hv & H1). apply ShapesDecl_var_ty_inv in Hv as [-> ->].
     apply bind_inv in H1 as (blob_ty & s3 & Hcp & H1).
+    destruct (Pcp _ _ _ W Hcp) as [_ E03].
     destruct (copy_shape _ _ _ _ _ W Hcp) as (W3 & F3 & (h0 & h' & Hh0 & Hh' & [Sh _])).
     rewrite Hh in Hh0. injection Hh0 as <-.
     assert (K : kid (HBlob name bsp fs bargs) (KField k) = Some c) by (cbn [kid]; rewrite Hk; reflexivity).
@@ -202,7 +208,11 @@ Section Rules.
     cbn [fst snd] in Hx.
     (* the field itself: its fresh class gets the type of the literal *)
     apply bind_inv in Hx as ([iret ety] & sc & Hl & Hx).
-    destruct (lit_spec _ _ _ lit _ _ _ _ _ Ll Rl Wa Hl) as (Wc & Ec & Hety). cbn [snd] in Hety.
+    destruct (ap_expr _ (PA f) _ _ _ _ _ Wa Hl) as [Wc Ec].
+    assert (E0a : ext s sa).
+    { eapply ext_trans; [exact E03|]. eapply ext_trans; [exact E4|]. eapply ext_trans; [exact E5|]. eapply ext_trans; [exact E7|].
+      eapply ext_trans; [exact E8|exact Ea]. }
+    pose proof (Hy _ _ _ _ Wa E0a Hl) as Hety. cbn [snd] in Hety.
     apply bind_inv_pres0 in Hx as (u3 & sd & _ & Wd & Ed & Hx); [|pose proof PG; prs|assumption].
     destruct (flookup k given) as [[gsp ft]|] eqn:Eg; [|discriminate].
     apply bind_inv in Hx as (u4 & se & Hu4 & Hx). injection Hx as <-.
@@ -229,6 +239,14 @@ Section Rules.
     apply (unify_kid_conflict g sp given_blob blob_ty s9 hg hb (KField k) cg cb' ta (base_head b) W9 Hhg Hhb Kg' Kb'
              Hcg Rl Hcb' b_rigid (fun E => Ne (eq_sym E)) (uf, s10)).
     exact Hf.
+  Qed.
+
+  Lemma rej_blob_field pre lit post self sp ta f ctx s :
+    wf s -> blob_sig v k b s -> lit_type lit = Some ta -> rigid ta = true -> base_head b <> ta ->
+    notok (r_expr (afix f) (EBlob v (pre ++ (k, lit) :: post) self sp) ctx s).
+  Proof.
+    intros W Sg Ll Rl Ne. apply rej_blob_field_y with (ta := ta); try assumption.
+    intros f' s1 x s2 W1 _ Hx. exact (proj2 (proj2 (lit_spec _ _ _ _ _ _ _ _ _ Ll Rl W1 Hx))).
   Qed.
 End Rules.
 
